@@ -531,14 +531,34 @@ fn limit_descriptors(n: u64) {
     }
 }
 
+/// Raise the soft descriptor limit to the hard one and return it (every program holds up to ~120 descriptors:
+/// a group of 40 raw sockets has 40 client and 40 server ends in this one process).
+fn raise_descriptors() -> u64 {
+    let mut r = RLimit { cur: 0, max: 0 };
+    // SAFETY: as above
+    unsafe {
+        if getrlimit(7, &mut r) != 0 {
+            return 1024;
+        }
+        if r.cur < r.max && setrlimit(7, &RLimit { cur: r.max, max: r.max }) == 0 {
+            return r.max;
+        }
+    }
+    r.cur
+}
+
 fn main() {
     install_panic_hook();
     let args: Vec<String> = std::env::args().collect();
+    let mut par_cap = usize::MAX;
     if let Some(n) = arg(&args, "--nofile").and_then(|s| s.parse::<u64>().ok()) {
         limit_descriptors(n);
+    } else {
+        // never let the driver itself run out of descriptors: fewer programs at a time on a small limit
+        par_cap = (raise_descriptors().saturating_sub(100) / 120).max(1) as usize;
     }
     let programs = arg(&args, "--programs").map(|p| read_programs(&p)).unwrap_or_default();
-    let par = arg_u64(&args, "--par", 16) as usize;
+    let par = (arg_u64(&args, "--par", 16) as usize).min(par_cap);
     let big = arg_u64(&args, "--big", 1 << 20) as usize;
     PORT_BASE.store(arg_u64(&args, "--port-base", 10000) as u32, std::sync::atomic::Ordering::Relaxed);
     PORT_SPAN.store(arg_u64(&args, "--port-span", 22000).max(2) as u32, std::sync::atomic::Ordering::Relaxed);
